@@ -25,39 +25,28 @@ Theorem C12_visibility_inherits : forall r i, wf r -> valid r i ->
   (visible r i = true <-> forall a, anc_or_self r a i -> priv_of r a <> HIDDEN).
 Proof. exact visibility_inherits. Qed.
 
-(* An object that is not visible has no page, no member anchor / detail block on any page, and no entry in any
-   listing fed by a filtered loop: sidebar items, member tables (own, package __init__, inherited), member details,
-   known subclasses, overridden-in, classIndex, nameIndex, undoccedSummary, all-documents, the search corpus,
-   objects.inv -- i.e. every listing producer except the two that iterate system.rootobjects (next theorem). *)
+(* An object that is not visible has no page, no member anchor / detail block on any page, and no entry in ANY
+   listing producer: sidebar items, member tables (own, package __init__, inherited), member details, known
+   subclasses, overridden-in, moduleIndex, index.html roots, classIndex, nameIndex, undoccedSummary, all-documents,
+   the search corpus, objects.inv. *)
 Theorem C12_hidden_no_page_anchor_row : forall quote r o depth ns, wf r -> visible r o = false ->
   ~ In o (written table_now r) /\
   (forall p, ~ In o (methods_of table_now r p)) /\
-  (forall e, In e (site_entries quote table_now r depth ns) -> listing_prod (e_prod e) = true ->
-             root_prod (e_prod e) = false -> e_obj e <> o).
+  (forall e, In e (site_entries quote table_now r depth ns) -> listing_prod (e_prod e) = true -> e_obj e <> o).
 Proof.
   intros quote r o depth ns Hwf Hv. pose proof listings_checked as Ht.
   destruct (table_ok_facts table_now Ht) as [_ [_ [_ [_ [_ [_ [_ [_ [_ [_ [_ [_ [_ [_ [_ [_ [_ [H18 _]]]]]]]]]]]]]]]]]].
   split; [|split].
   - intros Hin. apply (written_iff table_now r Hwf H18) in Hin. destruct Hin as [_ [Hvis _]]. congruence.
   - intros p Hin. pose proof (methods_visible table_now r p o Ht Hin). congruence.
-  - intros e Hin Hl Hr E. subst o.
-    rewrite (entries_visible quote table_now r depth ns e Hwf Ht) in Hv; [discriminate|congruence|exact Hin|exact Hl].
+  - intros e Hin Hl E. subst o.
+    rewrite (entries_visible quote table_now r depth ns e Hwf Ht Hin Hl) in Hv. discriminate.
 Qed.
 
-(* moduleIndex.html and the root list of index.html iterate system.rootobjects: their entries are for visible
-   objects when the loop filters on isVisible or no root is hidden ... *)
-Theorem C12_hidden_no_row_roots_partial : forall quote r depth ns e, wf r -> roots_guard table_now r ->
-  In e (site_entries quote table_now r depth ns) -> root_prod (e_prod e) = true -> visible r (e_obj e) = true.
-Proof.
-  intros quote r depth ns e Hwf Hg Hin Hr.
-  apply (entries_visible quote table_now r depth ns e Hwf listings_checked (fun _ => Hg) Hin).
-  unfold root_prod in Hr. apply orb_prop in Hr. destruct Hr as [E|E]; apply N.eqb_eq in E; rewrite E; reflexivity.
-Qed.
-
-(* ... and on the unchanged tree neither loop has the test: a HIDDEN root module gets an entry in both
-   (known finding C12-hidden-root-listed). *)
-Theorem C12_hidden_root_row_refuted : forall p, p = P_module_index \/ p = P_index_roots -> exists r e,
-  wf r /\ In e (site_entries cquote table_pinned r 1 false) /\ e_prod e = p /\ listing_prod (e_prod e) = true /\
+(* Before commit 989b1ee ModuleIndexPage.stuff and IndexPage.roots iterated system.rootobjects without the test:
+   a HIDDEN root module got an entry in both (fixed finding C12-hidden-root-listed); with the test it has none. *)
+Theorem C12_hidden_root_row_old_refuted : forall p, p = P_module_index \/ p = P_index_roots -> exists r e,
+  wf r /\ In e (site_entries cquote table_before_989b1ee r 1 false) /\ e_prod e = p /\ listing_prod (e_prod e) = true /\
   priv_of r (e_obj e) = HIDDEN /\ visible r (e_obj e) = false.
 Proof.
   intros p Hp. destruct (hidden_root_listed p Hp) as [e H]. exists w_hidden_root, e. split; [apply w_hidden_root_wf|exact H].
@@ -96,8 +85,8 @@ Example C12_hypotheses_satisfiable :
   existsb (fun e => Nat.eqb (e_obj e) 3) (site_entries cquote table_now w_example 2 false) = false /\
   existsb (fun e => Nat.eqb (e_obj e) 2 && marked_prod (e_prod e) && e_private e) (site_entries cquote table_now w_example 2 false) = true /\
   existsb (fun e => Nat.eqb (e_obj e) 4 && N.eqb (e_prod e) P_module_index && e_private e) (site_entries cquote table_now w_example 2 false) = true /\
-  roots_guard table_now w_example.
+  forallb (fun e => negb (listing_prod (e_prod e)) || visible w_hidden_root (e_obj e))
+          (site_entries cquote table_now w_hidden_root 1 false) = true.
 Proof.
-  split; [apply w_example_wf|]. do 5 (split; [vm_compute; reflexivity|]).
-  right. intros o Ho. cbn in Ho. destruct Ho as [E|[]]. subst o. vm_compute. reflexivity.
+  split; [apply w_example_wf|]. do 5 (split; [vm_compute; reflexivity|]). vm_compute. reflexivity.
 Qed.
